@@ -231,6 +231,35 @@ def check_reply(fx, rep):
               'Reply has exactly the members `parameters` and `continues`', 'Reply\'s wire members are not {parameters, continues}')
 
 
+def check_reply_ctor(fx, rep):
+    """R05.5 (constructor clause): Reply::new builds a reply whose `continues` member is absent: `Some(false)` there would put "continues":false on every reply
+    built without the setter, i.e. encode a member that is not present"""
+    import mir
+    core = fx.crate('zlink_core', 'full')
+    n = 0
+    for b in core.bodies:
+        if b.in_test or b.name != 'new' or not re.match(r'reply::Reply<', (b.impl_self or '')):
+            continue
+        for blk, i, st in b.iter_assigns():
+            rv = st['rv']
+            if rv['k'] == 'aggr' and 'reply::Reply' in (rv.get('adt') or '') and 'continues' in (rv.get('fields') or []):
+                n += 1
+                op = rv['ops'][rv['fields'].index('continues')]
+                tr = b.trace(op)
+                is_none = tr.get('kind') == 'aggr' and tr['rv'].get('variant') == 'None'
+                rep.check(is_none, 'R05.5', 'reply::Reply::new|continues-absent', C_where(b, blk, i),
+                          'Reply::new leaves `continues` absent (None)',
+                          'Reply::new initialises `continues` to something else than None: a reply built without set_continues then carries a `continues` member nobody asked for '
+                          '(and what is rebuilt from a decoded message is not the message)')
+    if not n:
+        rep.bad('R05.5', 'reply::Reply::new|anchor', 'zlink-core/src/reply.rs', 'the struct literal of Reply::new was not found')
+
+
+def C_where(b, blk, i=None):
+    import common as C
+    return C.where(b, blk, i)
+
+
 def check_derive(fx, rep):
     t = fx.tpl
     F = 'zlink-macros/src/reply_error.rs'
@@ -493,6 +522,7 @@ def check(fx, rep, tier):
     rep.rule('R05.7', 'every proxy template mapping a success reply uses the shared unit-aware extraction')
     check_call(fx, rep)
     check_reply(fx, rep)
+    check_reply_ctor(fx, rep)
     check_derive(fx, rep)
     check_no_params(fx, rep)
     check_proxy_extract(fx, rep)
